@@ -22,7 +22,7 @@ ANCHORS = ["pyrex.io:HDF5Writer.add", "pyrex.io:HDF5Writer._write_particles", "p
 RULE = ("one case = one file: 1-5 antennas (noisy or not), a random combination of the six write_* options that records "
         "particles, require_trigger True / False / a random list, a sequence of 0-12 adds with 1-5 particles, 0-3 rays per "
         "antenna (different per antenna and per event), bool / dict / per-waveform-list triggers, antennas queried or not "
-        "before the add, and interleaved rejected adds of six kinds; non-trivial = at least two accepted events with "
+        "before the add, and interleaved rejected adds of eight kinds (ValueError and TypeError refusals); non-trivial = at least two accepted events with "
         "different row counts were read back and compared; distinct = hash of the case")
 ASSUMPTIONS = ["'particles not recorded' is accepted as ValueError('... not saved ...') when no event of the file recorded particles",
                "ray paths are stand-ins exposing only `_metadata`, which is all the writer reads"]
